@@ -68,12 +68,39 @@ Definition n_cyc_core (kn : T -> T) (cut tiny : T) (xs : list T) : list T :=
   cumsum (scatter 0 (length xs) (switched_peaks n0 xs) (map (fun v => half / kn v) (peak_amps cut tiny xs))).
 Definition n_cyc_pl (pw : T -> T) (a_ref cut tiny : T) (xs : list T) : list T :=
   n_cyc_core (fun v => pw (a_ref / v)) cut tiny xs.
+(** ** the literal step-function pipeline of calc_n_cyc_array_w_power_law (new definitions; [n_cyc_core] above is the
+    running-sum form the correspondence check runs; proofs/P_C13.v proves the two equal for every input) *)
+(** np.insert(l, pos, v) for 0 <= pos <= len(l) *)
+Definition np_insert {A} (l : list A) (pos : nat) (v : A) : list A := firstn pos l ++ v :: skipn pos l.
+(** np.searchsorted(np.nextafter(xk, -inf), q, side='left') for non-decreasing integer knots and an integer q:
+    the number of leading knots <= q *)
+Fixpoint knots_le (xk : list nat) (q : nat) : nat :=
+  match xk with [] => O | x :: r => if (x <=? q)%nat then S (knots_le r q) else O end.
+(** scipy.interpolate.interp1d(xk, yk, kind='previous')(q) = yk[np.clip(searchsorted - 1, 0, len(xk) - 1)]:
+    the value at the last knot <= q (the last one of equal knots) *)
+Definition interp_previous (xk : list nat) (yk : list T) (q : nat) : T :=
+  nth (Nat.min (knots_le xk q - 1) (length xk - 1)) yk n0.
+(**  perc = 0.5 / kn(csr_peaks);  n_eq = cumsum(perc);  n_eq = insert(n_eq, 0, 0);  idx = insert(peak_indices, 0, 0);
+     n_eq = insert(n_eq, len(n_eq) - 1, n_eq[-1]);  idx = insert(idx, len(n_eq) - 1, len(values));
+     interp1d(idx, n_eq, kind='previous')(arange(len(values))) *)
+Definition n_cyc_core_interp (kn : T -> T) (cut tiny : T) (xs : list T) : list T :=
+  let perc := map (fun v => half / kn v) (peak_amps cut tiny xs) in
+  let n_eq0 := cumsum perc in
+  let n_eq1 := np_insert n_eq0 0 n0 in
+  let idx1 := np_insert (switched_peaks n0 xs) 0 O in
+  let n_eq2 := np_insert n_eq1 (length n_eq1 - 1) (last n_eq1 n0) in
+  let idx2 := np_insert idx1 (length n_eq2 - 1) (length xs) in
+  map (interp_previous idx2 n_eq2) (seq 0 (length xs)).
+Definition n_cyc_pl_interp (pw : T -> T) (a_ref cut tiny : T) (xs : list T) : list T :=
+  n_cyc_core_interp (fun v => pw (a_ref / v)) cut tiny xs.
 End Generic.
 
 (** * The real instance: x^y for x >= 0 (numpy: 0**y = 0 for y > 0) *)
 Definition rpow (x y : R) : R := if Rlt_dec 0 x then Rpower x y else 0%R.
 Definition tinyR : R := (1 / 100000000000000)%R.
 Definition n_cyc_R (a_ref b cut : R) (xs : list R) : list R := n_cyc_pl (fun x => rpow x (/ b)) a_ref cut tinyR xs.
+Definition n_cyc_interp_R (a_ref b cut : R) (xs : list R) : list R :=
+  n_cyc_pl_interp (fun x => rpow x (/ b)) a_ref cut tinyR xs.
 Definition cyc_amp_R (ncyc b : R) (xs : list R) : list R := cyc_amp (fun x => rpow x (/ b)) (fun x => rpow x b) ncyc xs.
 Definition cyc_amp_combined_R (ncyc b : R) (xs ys : list R) : list R :=
   cyc_amp_combined (fun x => rpow x (/ b)) (fun x => rpow x b) ncyc xs ys.
